@@ -41,6 +41,7 @@ fn main() {
             let text = args.get(3).cloned().unwrap_or_default();
             println!("{}", rx::reference_verbose(&kind, text.as_bytes()));
         }
+        "tables" => tables(),
         "rx" => rx::main(&o),
         "rx-bounds" => rx::main_bounds(&o),
         "alias" => alias::main(&o),
@@ -60,4 +61,192 @@ fn main() {
             std::process::exit(2);
         }
     }
+}
+
+/// `zv tables`: finite tables of the code under test read off its *behaviour* (used by extract/extract.py when the
+/// source no longer has the textual shape its patterns expect - a table rebuilt by a `const fn`, flags written in a loop).
+///
+/// `esc`: entry `b` of the string-escape table = the letter after the backslash the serializer writes for byte `b`
+/// (0 = written raw). Bytes below 0x80 are serialized as one-character strings; continuation and lead bytes inside a
+/// character that contains them; the bytes that occur in no valid UTF-8 string (C0, C1, F5..FF) cannot be observed and
+/// are reported as 0. `hex`: the digit written for each nibble value in `\u00XY`.
+/// `flags-ser`: the member names `Call` adds when all three flags are set, in order; `flags-de`: which of those names
+/// a decoded call recognises as (oneway, more, upgrade).
+fn tables() {
+    fn ser(s: &str) -> Vec<u8> {
+        let mut buf = vec![0u8; 64];
+        let n = zlink_core::__verif::to_slice(&s, &mut buf).expect("string serializes");
+        buf[..n].to_vec()
+    }
+    let mut esc = vec![0u32; 256];
+    let mut hex = vec![0u32; 16];
+    for b in 0u8..128 {
+        let s = (b as char).to_string();
+        let out = ser(&s);
+        let inner = &out[1..out.len() - 1];
+        if inner == [b] {
+            esc[b as usize] = 0;
+        } else if inner.len() >= 2 && inner[0] == b'\\' {
+            esc[b as usize] = inner[1] as u32;
+            if inner.len() == 6 && inner[1] == b'u' && b >= 0x10 {
+                hex[(b & 15) as usize] = inner[5] as u32;
+                hex[(b >> 4) as usize] = inner[4] as u32;
+                hex[0] = inner[2] as u32;
+            }
+        } else {
+            esc[b as usize] = 255; // neither raw nor a backslash escape: not a table this translator understands
+        }
+    }
+    // bytes >= 0x80 as part of a character that contains them
+    for cp in [0x80u32, 0xBF, 0x7FF, 0x800, 0xFFFF, 0x10000, 0x10FFFF, 0x3FFFF, 0xFFFFF].iter().chain((0x80u32..0x800).step_by(0x40).collect::<Vec<_>>().iter()).chain((0x800u32..0x10000).step_by(0x1000).collect::<Vec<_>>().iter()).chain((0x10000u32..0x110000).step_by(0x40000).collect::<Vec<_>>().iter()) {
+        if let Some(c) = char::from_u32(*cp) {
+            let s = c.to_string();
+            let out = ser(&s);
+            let raw = &out[1..out.len() - 1] == s.as_bytes();
+            for b in s.bytes() {
+                if !raw {
+                    esc[b as usize] = 255;
+                }
+            }
+        }
+    }
+    println!("esc {}", esc.iter().map(|v| v.to_string()).collect::<Vec<_>>().join(" "));
+    println!("hex {}", hex.iter().map(|v| v.to_string()).collect::<Vec<_>>().join(" "));
+    // call flags
+    #[derive(serde::Serialize, serde::Deserialize, Debug)]
+    #[serde(tag = "method", content = "parameters")]
+    enum M {
+        #[serde(rename = "x.A")]
+        A,
+    }
+    let all = zlink_core::Call::new(M::A).set_oneway(true).set_more(true).set_upgrade(true);
+    let j = serde_json::to_string(&all).unwrap_or_default();
+    let v: serde_json::Value = serde_json::from_str(&j).unwrap_or_default();
+    // member order as written (serde_json::Value would sort): scan the text for the members whose value is `true`
+    let mut names: Vec<(usize, String)> = vec![];
+    if let Some(o) = v.as_object() {
+        for (k, val) in o {
+            if val == &serde_json::Value::Bool(true) {
+                if let Some(pos) = j.find(&format!("\"{k}\":")) {
+                    names.push((pos, k.clone()));
+                }
+            }
+        }
+    }
+    names.sort();
+    let ser_names: Vec<String> = names.into_iter().map(|(_, k)| k).collect();
+    println!("flags-ser {}", ser_names.join(" "));
+    let mut de = vec![];
+    for (i, k) in ser_names.iter().enumerate() {
+        let text = format!("{{\"method\":\"x.A\",\"{k}\":true}}");
+        if let Ok(c) = serde_json::from_str::<zlink_core::Call<M>>(&text) {
+            let got = (c.oneway(), c.more(), c.upgrade());
+            let want = (i == 0, i == 1, i == 2);
+            if got == want {
+                de.push(k.clone());
+            }
+        }
+    }
+    println!("flags-de {}", de.join(" "));
+    intro_tables();
+    idl_tables();
+}
+
+/// `intro-atom <rust type>=<IDL variant>` / `intro-ctor <constructor>=<Optional|Array|Map|Transparent>`: what
+/// `<T as introspect::Type>::TYPE` is for the std types the model knows, read off the constant itself (however the
+/// impls are written: by hand, by `impl_type!`, by another macro).
+fn intro_tables() {
+    use zlink_core::introspect::Type;
+    fn head(t: &zlink_core::idl::Type<'static>) -> String {
+        let d = format!("{t:?}");
+        d.split(|c: char| !c.is_alphanumeric()).next().unwrap_or("").to_string()
+    }
+    let mut atoms: Vec<(&str, String)> = vec![];
+    macro_rules! atom { ($name:expr, $t:ty) => { atoms.push(($name, head(<$t as Type>::TYPE))); }; }
+    atom!("bool", bool); atom!("i8", i8); atom!("i16", i16); atom!("i32", i32); atom!("i64", i64);
+    atom!("u8", u8); atom!("u16", u16); atom!("u32", u32); atom!("u64", u64); atom!("isize", isize); atom!("usize", usize);
+    atom!("f32", f32); atom!("f64", f64); atom!("&str", &str); atom!("str", str); atom!("char", char); atom!("String", String);
+    atom!("unit", ()); atom!("serde_json::Value", serde_json::Value);
+    atom!("core::time::Duration", core::time::Duration); atom!("std::time::Instant", std::time::Instant);
+    atom!("std::time::SystemTime", std::time::SystemTime); atom!("std::path::PathBuf", std::path::PathBuf);
+    atom!("std::path::Path", std::path::Path); atom!("std::ffi::OsString", std::ffi::OsString); atom!("std::ffi::OsStr", std::ffi::OsStr);
+    atom!("core::net::IpAddr", core::net::IpAddr); atom!("core::net::Ipv4Addr", core::net::Ipv4Addr);
+    atom!("core::net::Ipv6Addr", core::net::Ipv6Addr); atom!("core::net::SocketAddr", core::net::SocketAddr);
+    atom!("core::net::SocketAddrV4", core::net::SocketAddrV4); atom!("core::net::SocketAddrV6", core::net::SocketAddrV6);
+    println!("intro-atoms {}", atoms.iter().map(|(a, b)| format!("{a}={b}")).collect::<Vec<_>>().join(" "));
+    // constructors applied to `bool`: the head of the result tells the kind; `Bool` itself = transparent
+    let mut ctors: Vec<(&str, String)> = vec![];
+    macro_rules! ctor { ($name:expr, $t:ty) => { {
+        let h = head(<$t as Type>::TYPE);
+        ctors.push(($name, if h == "Bool" { "Transparent".to_string() } else { h }));
+    } }; }
+    use std::collections::{BTreeMap, BTreeSet, HashMap, HashSet};
+    ctor!("Option", Option<bool>); ctor!("Box", Box<bool>); ctor!("std::rc::Rc", std::rc::Rc<bool>);
+    ctor!("std::sync::Arc", std::sync::Arc<bool>); ctor!("std::cell::Cell", std::cell::Cell<bool>);
+    ctor!("std::cell::RefCell", std::cell::RefCell<bool>); ctor!("std::borrow::Cow", std::borrow::Cow<'static, bool>);
+    ctor!("Vec", Vec<bool>); ctor!("&[]", &[bool]); ctor!("HashMap<String>", HashMap<String, bool>);
+    ctor!("HashMap<&str>", HashMap<&str, bool>); ctor!("BTreeMap<String>", BTreeMap<String, bool>);
+    ctor!("BTreeMap<&str>", BTreeMap<&str, bool>); ctor!("HashSet", HashSet<bool>); ctor!("BTreeSet", BTreeSet<bool>);
+    println!("intro-ctors {}", ctors.iter().map(|(a, b)| format!("{a}={b}")).collect::<Vec<_>>().join(" "));
+}
+
+/// The literals of the IDL grammar as the parser and the `Display` impls *behave*: a primitive name is reported
+/// with the `Type` variant a field of that type parses to; a member keyword / punctuation mark is reported when a
+/// text using it parses and the same text with the literal damaged does not; a `Display` keyword is what the
+/// rendering of a one-member description starts its member line with.
+fn idl_tables() {
+    use zlink_core::idl::Interface;
+    let parse_ok = |t: &str| Interface::try_from(t).is_ok();
+    let mut prims = vec![];
+    for name in ["bool", "int", "float", "string", "object"] {
+        let text = format!("interface a.b\ntype T (x: {name})\n");
+        if let Ok(i) = Interface::try_from(text.as_str()) {
+            let d = format!("{i:?}");
+            // the field's type is the only `TypeRef(..(<Variant>))` of the description
+            for v in ["Bool", "Int", "Float", "String", "ForeignObject", "Object", "Custom"] {
+                if d.contains(&format!("({v})")) || d.contains(&format!("({v}(")) {
+                    prims.push(format!("{name}={v}"));
+                    break;
+                }
+            }
+        }
+    }
+    println!("idl-prims {}", prims.join(" "));
+    let base = "interface a.b\ntype T (x: ?[][string]int, y: bool)\nmethod M(a: int) -> (b: int)\nerror E (c: int)\n# c\ntype U (v, w)\n";
+    let mut kws = vec![];
+    let mut punct = vec![];
+    if parse_ok(base) {
+        for kw in ["error", "interface", "method", "type"] {
+            let damaged = base.replacen(kw, &format!("{}x", &kw[..kw.len() - 1]), 1);
+            if !parse_ok(&damaged) {
+                kws.push(kw);
+            }
+        }
+        for (p, repl) in [("#", "%"), ("(", "{"), (")", "}"), (",", ";"), ("->", "=>"), (":", "="), ("?", "!"), ("[]", "<>"), ("[string]", "[strinx]")] {
+            let damaged = base.replacen(p, repl, 1);
+            if !parse_ok(&damaged) {
+                punct.push(p);
+            }
+        }
+    }
+    println!("idl-kws {}", kws.join(" "));
+    println!("idl-punct {}", punct.join(" "));
+    // Display keywords: render a parsed description and look at how each member line starts
+    let mut disp = vec![];
+    if let Ok(i) = Interface::try_from(base) {
+        let out = i.to_string();
+        for (file, kw) in [("interface.rs", "interface"), ("method.rs", "method"), ("error.rs", "error"), ("custom_object.rs", "type"), ("custom_enum.rs", "type")] {
+            let probe = match file {
+                "interface.rs" => "interface a.b",
+                "method.rs" => "method M(",
+                "error.rs" => "error E (",
+                "custom_object.rs" => "type T (",
+                _ => "type U (",
+            };
+            if out.lines().any(|l| l.starts_with(probe)) {
+                disp.push(format!("{file}={kw}_"));
+            }
+        }
+    }
+    println!("idl-display {}", disp.join(" "));
 }
